@@ -8,6 +8,7 @@ import (
 	"math"
 	"math/big"
 	"math/bits"
+	"slices"
 
 	"github.com/tuneinsight/lattigo/v6/utils"
 	"github.com/tuneinsight/lattigo/v6/utils/bignum"
@@ -512,7 +513,14 @@ func (r Ring) Equal(p1, p2 Poly) bool {
 	r.Reduce(p1, p1)
 	r.Reduce(p2, p2)
 
-	return p1.Equal(&p2)
+	// Only the residues of the ring at its level are compared
+	for i := 0; i < r.level+1; i++ {
+		if !slices.Equal(p1.Coeffs[i], p2.Coeffs[i]) {
+			return false
+		}
+	}
+
+	return true
 }
 
 // ringParametersLiteral is a struct to store the minimum information
